@@ -366,7 +366,7 @@ PROPS = {
              "Annex A register (not the table model); gate: PAT/PMT installs handlers, then the next version of the PAT or PMT "
              "arrives damaged (every single bit for sections <= 80 bytes, sampled bit pairs, bursts of 2..32 bits, random byte "
              "damage; single- and multi-packet), then probe packets on every PID of interest; also the applied table itself re-sent with "
-             "another version_number, damaged body and its old CRC_32 field; distinct = distinct case lines also: next-version tables whose CRC_32 field holds a meaningful wrong value (zero, all ones, copies of section bytes, complemented / byte-swapped / offset CRC); and three-step histories (applied table; something that makes the de-duplication layer forget it; the table again with only body bytes damaged)",
+             "another version_number, damaged body and its old CRC_32 field; distinct = distinct case lines also: next-version tables whose CRC_32 field holds a meaningful wrong value (zero, all ones, copies of section bytes, complemented / byte-swapped / offset CRC); and three-step histories (applied table; something that makes the de-duplication layer forget it; the table again with only body bytes damaged); and next-version tables with a verifying code word INSIDE them (section_length counts 1..16 stuffing bytes behind a CRC_32 that is right for the bytes before them; CRC_32 right for the section without its first 1/3/8 bytes)",
         trusted=["ISO/IEC 13818-1 Annex A decoder model as transcribed in coq/Spec/CrcSpec.v",
                  "CRC table and preset are copied from the source by bin/gen_tables.py on every run; the table proof is re-checked against them"],
         assumptions=["input bytes are < 256", "the CRC gate is stated for the normal build; under cfg(fuzzing) the comparison is bypassed by design"],
@@ -417,7 +417,7 @@ PROPS = {
         render=r_hex1("run_packet_c12"),
         exhaustive=True,
         rule="exhaustive over header bytes (b1,b2) and over (b3, adaptation_field_length), all 256 sync-byte values; "
-             "remaining bytes random from VERIF_SEED; distinct = distinct case lines; every case is non-trivial "
+             "remaining bytes random from VERIF_SEED, plus every header byte 3 x boundary lengths with constant filler behind the header (flags byte 0x00/0xff/0x10/random, then all 0xff or all 0x00: stuffing as multiplexers emit it); distinct = distinct case lines; every case is non-trivial "
              "(each exercises all header accessors, the payload split and the adaptation-field range fingerprint) plus the PIDs with a meaning of their own (0, 1, 2, 0x10, 0x11, 0x1ffb, 0x1ffe, 0x1fff) x every header byte 3 x boundary adaptation_field_lengths",
         trusted=["ISO/IEC 13818-1 2.4.3.2 header layout as transcribed in coq/Spec/PacketSpec.v"],
         assumptions=["input bytes are < 256 (true of every u8)", "AdaptationField exposes no raw-bytes accessor: its range is observed through transport_private_data() probes (range fingerprint)"],
